@@ -262,6 +262,7 @@ def inline_new_functions(prog, known=None, max_blocks=400):
     from . import analysis
     done = {}
     state = {}
+    callers = {}
 
     def process(F, stack):
         """splice every call of F to a new function (callee processed first)"""
@@ -298,6 +299,7 @@ def inline_new_functions(prog, known=None, max_blocks=400):
                 _reset(F)
                 continue
             done[ck] = done.get(ck, 0) + 1
+            callers.setdefault(ck, set()).add(F.key)
         state[F.key] = "done"
 
     for k in sorted(prog.fns):
@@ -324,6 +326,21 @@ def inline_new_functions(prog, known=None, max_blocks=400):
     for k in list(new):
         if k in done and k not in still:
             del prog.fns[k]
+            # closures written inside a helper that now lives (only) inside one caller are that caller's closures
+            cs = callers.get(k) or set()
+            cs = {c for c in cs if c not in new or c in prog.fns}
+            owner = None
+            if len(cs) == 1:
+                owner = next(iter(cs))
+                hops = 0
+                while owner in new and owner not in prog.fns and len(callers.get(owner) or ()) == 1 and hops < 4:
+                    owner = next(iter(callers[owner]))
+                    hops += 1
+            if owner is not None and owner in prog.fns:
+                for c in prog.crates.values():
+                    for dd in c.defs:
+                        if dd.get("closure_of") == k:
+                            dd["closure_of"] = owner
     prog._callees = {}
     prog._reach = {}
     prog._callers = None
